@@ -147,8 +147,9 @@ def run(c, chk):
     # R9.12: "an unknown name fails without effect", "removal by path": the by-name calls address what the resolver finds
     if not isinstance(chk, report.SubCheck):
         from . import c11 as _c11
-        chk.rule('R9.12', 'by-name calls address exactly the option named: one resolver, whole-name comparison (rule R11.1 of C11)')
-        sub = report.SubCheck(chk, 'R9.12', 'C11', only=('R11.1',))
+        chk.rule('R9.12', 'by-name calls address exactly the option and the section instance named: one resolver, whole-name comparison, an instance number that is a whole '
+                          'numeral within the option\'s range before it is narrowed (rules R11.1, R11.5 of C11)')
+        sub = report.SubCheck(chk, 'R9.12', 'C11', only=('R11.1', 'R11.5'))
         _c11.run(c, sub)
         sub.done('name resolution')
     # R9.11: the store answers by the text it is given, not by what an earlier refused call left in errno
